@@ -10,5 +10,5 @@ trap 'git -C /repo worktree remove --force $d' EXIT
 git -C $d apply "$patch" || { echo "PATCH FAILED"; exit 2; }
 (cd $d && go build ./... && go test -vet=off -count=1 ./... 2>&1 | tail -3)
 shift 3 2>/dev/null
-VERIF_REPO=$d /verif/bin/gosmt check $id --tier $tier "$@"
+GOSMT_EVIDENCE_DIR=/tmp/mut_evidence GOSMT_REPLAY_DIR=/tmp/mut_replays VERIF_REPO=$d /verif/bin/gosmt check $id --tier $tier "$@"
 echo "exit=$?"
